@@ -383,9 +383,12 @@ func runLocalRound(c *Ctx, round int, g c12Cfg, reqs []c12Req) {
 						res.MemGB, g.MaxMemGB, g.MaxVmemMB, strings.TrimSpace(string(msg))), state())
 			case over == 3:
 				r.hist("local_jobs_refused_by_process_semaphore")
-			default:
+			case strings.Contains(string(msg), "Tried to acquire"):
 				violate("C12:local:job-refused", fmt.Sprintf("job %d (threads %g, mem %g GB, vmem %g GB) was refused: %s",
 					j.id, res.Threads, res.MemGB, res.VMemGB, strings.TrimSpace(string(msg))), state())
+			default:
+				// not a semaphore decision (the shell could not be started, was signalled, …)
+				r.note("local round %d: job %d failed outside the semaphores: %s", round, j.id, strings.TrimSpace(string(msg)))
 			}
 		}
 		if len(done)+len(failed) == len(jobs) {
